@@ -162,6 +162,7 @@ class Frame:
         self.mod = mod
         self.env = env
         self.uncertain = False
+        self.loop_uncertain = False
 
 
 # --------------------------------------------------------------------------- whitelisted vocabulary
@@ -234,6 +235,7 @@ class Evaluator:
         self._modvals: dict[tuple[str, str], object] = {}
         self._clsvals: dict[tuple[str, str], object] = {}
         self.stmt_hooks: dict[int, object] = {}  # id(stmt) -> callback(frame)
+        self.substitute: dict[str, FuncInfo] = {}  # fq -> function evaluated in its place (an inline view of it)
         self.notes: list[str] = []  # why something became POISON (diagnostics)
 
     # ------------------------------------------------------------------ helpers
@@ -254,6 +256,7 @@ class Evaluator:
     def call_function(self, fi: FuncInfo, args: list, kwargs: dict | None = None, self_val: object = None, closure_env: Env | None = None):
         """Value returned by `fi` for these arguments (POISON if it cannot be determined in tolerant mode)."""
         kwargs = dict(kwargs or {})
+        fi = self.substitute.get(fi.fq, fi)
         if len(self.stack) > self.max_depth:
             raise Unknown("call depth exceeded")
         if fi.is_abstract:
@@ -343,12 +346,33 @@ class Evaluator:
             self.stmt(s, fr)
 
     @staticmethod
-    def _has_jump(stmts: list[ast.stmt]) -> bool:
-        for s in stmts:
-            for n in ast.walk(s):
-                if isinstance(n, (ast.Return, ast.Raise, ast.Break, ast.Continue)):
-                    return True
-        return False
+    def _has_jump(stmts: list[ast.stmt], loop_jumps: bool = True) -> str:
+        """"" (no jump) | "loop" (only break / continue of the enclosing loop) | "function" (return / raise)."""
+        found = ""
+
+        def walk(ss: list[ast.stmt], in_inner_loop: bool) -> None:
+            nonlocal found
+            for s in ss:
+                if isinstance(s, (ast.Return, ast.Raise)):
+                    found = "function"
+                elif isinstance(s, (ast.Break, ast.Continue)):
+                    if not in_inner_loop and loop_jumps and found != "function":
+                        found = "loop"
+                elif isinstance(s, (ast.FunctionDef, ast.AsyncFunctionDef, ast.ClassDef)):
+                    continue
+                else:
+                    inner = in_inner_loop or isinstance(s, (ast.For, ast.AsyncFor, ast.While))
+                    for fld in ("body", "orelse", "finalbody"):
+                        blk = getattr(s, fld, None)
+                        if isinstance(blk, list) and blk and isinstance(blk[0], ast.stmt):
+                            walk(blk, inner if fld == "body" else in_inner_loop)
+                    for h in getattr(s, "handlers", []) or []:
+                        walk(h.body, in_inner_loop)
+                    for c in getattr(s, "cases", []) or []:
+                        walk(c.body, in_inner_loop)
+
+        walk(stmts, False)
+        return found
 
     def _poison_targets(self, stmts: list[ast.stmt], fr: Frame) -> None:
         """Everything the statements may bind or mutate becomes undetermined."""
@@ -431,7 +455,7 @@ class Evaluator:
                 self._tick()
                 c = self._truth(self._guarded(s.test, fr))
                 if c is POISON:
-                    self._undetermined_branch([*s.body, *s.orelse], fr)
+                    self._undetermined_branch([*s.body, *s.orelse], fr, own_loop=True)
                     return
                 if not c:
                     self.block(s.orelse, fr)
@@ -441,14 +465,18 @@ class Evaluator:
                 except _Break:
                     return
                 except _Continue:
-                    continue
+                    pass
+                if fr.loop_uncertain:
+                    fr.loop_uncertain = False
+                    self._undetermined_branch([*s.body, *s.orelse], fr, own_loop=True)
+                    return
         elif isinstance(s, (ast.For, ast.AsyncFor)):
             it = self._guarded(s.iter, fr)
             if it is POISON or not self._iterable(it):
                 if it is not POISON and not self.tolerant:
                     raise Unknown(f"iteration over {type(it).__name__}")
                 self._poison_target(s.target, fr)
-                self._undetermined_branch([*s.body, *s.orelse], fr)
+                self._undetermined_branch([*s.body, *s.orelse], fr, own_loop=True)
                 return
             broke = False
             for x in self._iterate(it):
@@ -460,7 +488,12 @@ class Evaluator:
                     broke = True
                     break
                 except _Continue:
-                    continue
+                    pass
+                if fr.loop_uncertain:
+                    fr.loop_uncertain = False
+                    self._poison_target(s.target, fr)
+                    self._undetermined_branch([*s.body, *s.orelse], fr, own_loop=True)
+                    return
             if not broke:
                 self.block(s.orelse, fr)
         elif isinstance(s, ast.Raise):
@@ -493,12 +526,16 @@ class Evaluator:
             self._note(f"statement {type(s).__name__} not evaluated")
             self._undetermined_branch([s], fr)
 
-    def _undetermined_branch(self, stmts: list[ast.stmt], fr: Frame) -> None:
+    def _undetermined_branch(self, stmts: list[ast.stmt], fr: Frame, own_loop: bool = False) -> None:
+        """`stmts` may or may not be executed: what they bind is undetermined; jumps out of them make what follows uncertain."""
         if not self.tolerant:
             raise Unknown("branch on an undetermined condition")
         self._poison_targets(stmts, fr)
-        if self._has_jump(stmts):
+        j = self._has_jump(stmts, loop_jumps=not own_loop)
+        if j == "function":
             fr.uncertain = True
+        elif j == "loop":
+            fr.loop_uncertain = True  # the rest of the enclosing loop body may or may not run
 
     def _try(self, s: ast.Try, fr: Frame) -> None:
         try:
